@@ -19,4 +19,12 @@ CLAIMED = {
    note='Trusted: RandomState(seed) deterministic, shuffle returns a permutation (uninterpreted SHUF), numpy arange/zeros/slice '
         'contracts, abstract IsPerm/InRange predicates with stated axioms; the two corollaries (coverage after ceil(N/B) batches, '
         'usage counts differ by <= 1) are consequences of the window obligation, not separate obligations.'),
+ 'C15': dict(
+   text='Unbounded proof for padded_batch_client_datasets (both loops, all client-size mixes incl. empty clients: emitted real '
+        'rows = concatenation of the datasets in order, all batches but the last full, bucketed final size, ValueError exactly '
+        'for a differing preprocessor object / feature set) and for RepeatableIterator (class invariant: first pass copies, later '
+        'passes replay exactly the buffer; builtin containers never mutated). buffered_shuffle and '
+        'buffered_shuffle_batch_client_datasets are covered by a bounded native stand-in only (labelled bounded in the evidence).',
+   note='Trusted: TABLE contracts of the helpers (proved in C03), FLAT ghost concatenation axioms, per-example preprocessor '
+        'hypothesis. Bounded (not proved): buffered_shuffle multiset property, two-level shuffle. Not covered: non-trivial order.'),
 }
